@@ -174,15 +174,35 @@ Proof.
   rewrite <- seq_shift, map_map. apply map_ext. intros k. f_equal. lia.
 Qed.
 
-(* the loop of funcRange with enough iterations *)
-Lemma range_list_values step : (0 < step)%Z -> forall n i lim, (Z.to_nat (lim - i) <= n)%nat ->
+(* the loop of funcRange with enough iterations: as many as there are elements *)
+Lemma range_list_count step : (0 < step)%Z -> forall n i lim, (range_count i lim step <= n)%nat ->
   range_list n i lim step = range_values i lim step.
 Proof.
   intros Hs. induction n as [|n IH]; intros i lim Hn; cbn [range_list].
-  - rewrite range_values_nil; [reflexivity | lia].
   - destruct (Z.ltb_spec i lim).
-    + rewrite (range_values_cons i lim step Hs H). f_equal. apply IH. lia.
+    + rewrite (range_count_step i lim step Hs H) in Hn. lia.
     + rewrite range_values_nil; [reflexivity | lia].
+  - destruct (Z.ltb_spec i lim).
+    + rewrite (range_values_cons i lim step Hs H). f_equal. apply IH.
+      rewrite (range_count_step i lim step Hs H) in Hn. lia.
+    + rewrite range_values_nil; [reflexivity | lia].
+Qed.
+
+Lemma range_count_le_span i lim : (range_count i lim 1 <= Z.to_nat (lim - i))%nat.
+Proof.
+  unfold range_count. destruct (Z.ltb_spec i lim); [|lia].
+  replace (lim - i + 1 - 1)%Z with (lim - i)%Z by lia. rewrite Z.div_1_r. lia.
+Qed.
+
+Lemma range_count_le_quot i lim step : (0 < step)%Z ->
+  (range_count i lim step <= Z.to_nat ((lim - i) / step + 1))%nat.
+Proof.
+  intros Hs. unfold range_count. destruct (Z.ltb_spec i lim); [|lia].
+  apply Z2Nat.inj_le.
+  - apply Z.div_pos; lia.
+  - assert (0 <= (lim - i) / step)%Z by (apply Z.div_pos; lia). lia.
+  - replace ((lim - i) / step + 1)%Z with ((lim - i + 1 * step) / step)%Z by (rewrite Z.div_add by lia; reflexivity).
+    apply Z.div_le_mono; lia.
 Qed.
 
 (* ---- the functions, one by one ---- *)
@@ -296,7 +316,7 @@ Lemma af_range args : apply_func (fn_name FRange) args =
   | [VInt i; VInt lim] => Ok (FNewList (range_list (Z.to_nat (lim - i)) i lim 1))
   | [VInt i; VInt lim; VInt step] =>
       if (step <=? 0)%Z then Err e_range
-      else Ok (FNewList (range_list (Z.to_nat (lim - i)) i lim step))
+      else Ok (FNewList (range_list (Z.to_nat ((lim - i) / step + 1)) i lim step))
   | _ => Err e_type
   end.
 Proof. reflexivity. Qed.
@@ -358,12 +378,13 @@ Proof.
     all: try (destruct a; try err_ok; destruct c; try err_ok; cbn; rewrite contains_infix; reflexivity).
   - (* range *) eapply orel_impl_eq; [apply af_range|]. destruct args as [|a [|c [|d [|? ?]]]]; try err_ok.
     + destruct a; try err_ok.
-      cbn [apply_fn_spec bind fres_of]. rewrite (range_list_values 1 eq_refl); [reflexivity | lia].
+      cbn [apply_fn_spec bind fres_of]. rewrite (range_list_count 1 eq_refl); [reflexivity|].
+      pose proof (range_count_le_span 0 z). rewrite Z.sub_0_r in H. exact H.
     + destruct a; try err_ok; destruct c; try err_ok.
-      cbn [apply_fn_spec bind fres_of]. rewrite (range_list_values 1 eq_refl); [reflexivity | lia].
+      cbn [apply_fn_spec bind fres_of]. rewrite (range_list_count 1 eq_refl); [reflexivity | apply range_count_le_span].
     + destruct a; try err_ok; destruct c; try err_ok; destruct d; try err_ok.
       cbn [apply_fn_spec]. destruct (Z.leb_spec z1 0); [err_ok|].
-      cbn [bind fres_of]. rewrite (range_list_values z1); [reflexivity | lia | lia].
+      cbn [bind fres_of]. rewrite (range_list_count z1); [reflexivity | lia | apply range_count_le_quot; lia].
     + destruct a; try err_ok; destruct c; try err_ok; destruct d; err_ok.
   - (* hasData *) eapply orel_impl_eq; [apply af_hasData|]. reflexivity.
 Qed.
